@@ -405,6 +405,11 @@ type vfDB struct {
 	pool      *TempPool
 	cachesize int
 
+	// shared != nil: every block writer gets this one state cache, never purged (what launch's
+	// purgeStateCacheFunc hands to the importers of the syncer: one LFU cache behind
+	// util.NewPurgeFuncGCache whose purge function says no for every block but the last one)
+	shared util.GCache[string, [2]interface{}]
+
 	goroutines int // number of goroutines right after open
 }
 
@@ -412,7 +417,7 @@ func vfStorageOptions() *leveldbopt.Options {
 	// NOTE like leveldbstorage.NewMemStorage(), with small buffers: goleveldb
 	// allocates the whole write buffer (default 4MiB) per Open and the search
 	// opens a fresh database per transition.
-	return &leveldbopt.Options{WriteBuffer: 256 * leveldbopt.KiB, BlockCacheCapacity: 64 * leveldbopt.KiB}
+	return &leveldbopt.Options{WriteBuffer: 64 * leveldbopt.KiB, BlockCacheCapacity: 64 * leveldbopt.KiB}
 }
 
 func (env *vfEnv) newDB(cachesize int) *vfDB {
@@ -485,6 +490,20 @@ func (db *vfDB) close() {
 	db.st, db.perm, db.center, db.pool = nil, nil, nil, nil
 }
 
+// closeNow closes without waiting for stray goroutines (engine S: every goroutine of an execution has ended).
+func (db *vfDB) closeNow() {
+	if db.st == nil {
+		return
+	}
+
+	vfMust(db.center.Close())
+	vfMust(db.pool.Close())
+	vfMust(db.perm.Close())
+	vfMust(db.st.Close())
+
+	db.st, db.perm, db.center, db.pool = nil, nil, nil, nil
+}
+
 func (db *vfDB) reopen() {
 	db.close()
 	db.open()
@@ -494,6 +513,15 @@ func (db *vfDB) reopen() {
 func (db *vfDB) newWriter(b *vfBlock) isaac.BlockWriteDatabase {
 	wst, err := db.center.NewBlockWriteDatabase(b.height)
 	vfMust(err)
+
+	if db.shared != nil {
+		wst.(isaac.StateCacheSetter).SetStateCache( //nolint:forcetypeassert //...
+			util.NewPurgeFuncGCache(db.shared, func() bool { return false }))
+
+		vfFillWriter(wst, b, 0)
+
+		return wst
+	}
 
 	vfFillWriter(wst, b, db.cachesize)
 
@@ -1111,7 +1139,23 @@ func vfWhere(m *vfModel, q string) string {
 	return "-"
 }
 
-func vfClass(got string, gotok bool, want string, wantok bool) string {
+// vfBlockOf is the block id inside a name of the fixture ("vf-state-A@h1:S:s0:w0" -> "h1:S:s0:w0";
+// "body-of-state(vf-state-A@h1:S:s0:w0)" -> the same), "" when there is none.
+func vfBlockOf(name string) string {
+	i := strings.IndexByte(name, '@')
+	if i < 0 {
+		if j := strings.Index(name, "-of(h"); j >= 0 { // hash-of(...), manifest-hash-of(<id>)
+			return strings.TrimSuffix(name[j+4:], ")")
+		}
+
+		return ""
+	}
+
+	return strings.TrimRight(name[i+1:], ")")
+}
+
+// vfClass is the structural class of a wrong answer.
+func vfClass(m *vfModel, got string, gotok bool, want string, wantok bool) string {
 	switch {
 	case strings.HasPrefix(got, "error("):
 		return "error"
@@ -1119,15 +1163,29 @@ func vfClass(got string, gotok bool, want string, wantok bool) string {
 		return "part-missing"
 	case !wantok:
 		return "part-unexpected"
-	case want == vfNotFound:
-		return "found-but-not-committed"
 	case got == vfNotFound:
 		return "committed-but-not-found"
 	case strings.HasPrefix(got, "UNKNOWN"), strings.HasPrefix(got, "CORRUPT"):
 		return "unknown-value"
-	default:
-		return "other-committed-value"
 	}
+
+	if id := vfBlockOf(got); id != "" {
+		committed := false
+
+		for _, b := range m.blocks {
+			committed = committed || b.id == id
+		}
+
+		if !committed {
+			return "value-of-uncommitted-block" // a removed or abandoned block
+		}
+	}
+
+	if want == vfNotFound {
+		return "found-but-not-committed"
+	}
+
+	return "value-of-other-committed-block"
 }
 
 // ---------------------------------------------------------------- events: pure side
@@ -1135,7 +1193,7 @@ func vfClass(got string, gotok bool, want string, wantok bool) string {
 // Event alphabet (C19; C20 adds X and the pool writes):
 //   WS WF WP WO  write the next block of that kind through NewBlockWriteDatabase/.../Write and commit it
 //                with Center.MergeBlockWriteDatabase (WG: the genesis block, the only write on an empty chain)
-//   U            write the next block completely (Write()) but never commit it (abandoned block write)
+//   U            write the next block completely (Write()), then Cancel() it instead of committing (abandoned block write)
 //   m            Center.mergePermanent (one step of the ticker loop body)
 //   M            Center.MergeAllPermanent
 //   R<h>         Center.RemoveBlocks(h)
@@ -1479,9 +1537,8 @@ func (db *vfDB) apply(ev string, blk *vfBlock) (flag bool, err error) {
 	case ev[0] == 'W':
 		return true, db.center.MergeBlockWriteDatabase(db.newWriter(blk))
 	case ev == "U":
-		_ = db.newWriter(blk)
-
-		return false, nil
+		// what BlockImporter.CancelImport / a failed block writer does: everything was written, then Cancel()
+		return false, db.newWriter(blk).Cancel()
 	case ev == "m":
 		return db.center.mergePermanent(context.Background())
 	case ev == "M":
